@@ -1,3 +1,4 @@
+@property
 def spec(self):
     if self.delayedby:
         return self.synapse.current_at(self.selector)
